@@ -82,9 +82,11 @@ pub fn generate(g: &mut Gen) {
                     let mut v = vec![0x82];
                     let c = qty_u(&mut rng); v.extend(uint_bytes(&mut rng, c)); v.extend(assets_bytes(&mut rng, false));
                     if rng.chance(1, 8) { v = uint_bytes(&mut rng, c); }
+                    // other legal spellings of the same item: wider map / byte-string / array heads, indefinite inner maps and strings
+                    if rng.chance(1, 3) { v = crate::streams::cborwrap::restyle(&mut rng, &v, 30, 25); }
                     ops.push(format!("value {}", hex(&v)));
                 }
-                5 => ops.push(format!("mint {}", hex(&assets_bytes(&mut rng, true)))),
+                5 => { let mut v = assets_bytes(&mut rng, true); if rng.chance(1, 3) { v = crate::streams::cborwrap::restyle(&mut rng, &v, 30, 25); } ops.push(format!("mint {}", hex(&v))); }
                 6 => { let q = qty_u(&mut rng); ops.push(format!("try_pcoin {}", q)); }
                 _ => { let q = qty_i(&mut rng).clamp(i64::MIN as i128, i64::MAX as i128); ops.push(format!("try_nzi {}", q)); }
             }
